@@ -164,14 +164,24 @@ def all_ops():
                        ('contains', "contains('xAy', 'a')"), ('max', "max(('b', 'A'))")):
         ops.append({'kind': 'default', 'f': fname, 'c': 'parser-default', 'src': src, 'ver': '3.1'})
         ops.append({'kind': 'default-new-parser', 'f': fname, 'c': 'new-parser-default', 'src': src, 'ver': '3.1'})
+    # regular-expression evaluations: they use the process-wide lazy Unicode subset cache (\\s \\d \\w \\i \\c, \\p{..})
+    for i, src in enumerate(REGEX_OPS):
+        ops.append({'kind': 'regex', 'f': 'regex', 'c': 'r%d' % i, 'src': src, 'ver': '3.1'})
     ops.append({'kind': 'new-parser', 'f': 'XPath2Parser()', 'c': '-', 'src': '', 'ver': '2.0'})
     ops.append({'kind': 'declared-default', 'f': 'compare', 'c': 'declared-uca-qq', 'src': "compare('a', 'B')", 'ver': '3.1'})
     return ops
 
 
+REGEX_OPS = [
+    "tokenize('1a2 3', '[\\s]')", "replace('abc 1', '[\\D]', '')", "matches('x', '^[\\S\\D]$')", "matches('p', '^[\\D-[ple]]+$')",
+    "replace('a b', '[\\S-[a]]', 'x')", "matches('é1', '^\\w\\d$')", "matches('a:b', '^\\i\\c*$')", "replace('aB1', '\\p{Lu}', '_')",
+    "matches(' ', '[\\s-[ ]]')", "tokenize('a1b22c', '[\\d]+')", "replace('x y', '[\\W]', '-')", "matches('9', '[^\\D]')",
+    "string-join(analyze-string('a1', '\\d')//*:match, ',')", "replace('ab', '[\\I\\C]', 'z')", "matches('-', '[\\c-[\\i]]')",
+]
 PROBES = [('literal', 'compare', 'uca-de'), ('literal', 'compare', 'codepoint'), ('variable', 'distinct-values', 'uca-qq-nofallback'),
           ('literal', 'sort', 'uca-ci'), ('new-parser', 'XPath2Parser()', '-'), ('default', 'compare', 'parser-default'),
-          ('literal', 'deep-equal', 'uca-qq-fallback')]
+          ('literal', 'deep-equal', 'uca-qq-fallback'), ('regex', 'regex', 'r0'), ('regex', 'regex', 'r1'), ('regex', 'regex', 'r5'),
+          ('regex', 'regex', 'r6'), ('regex', 'regex', 'r10')]
 
 
 def plan(tier, seed):
@@ -227,6 +237,11 @@ class World:
         self.vl = VirtualLocale(installed, initial)
         self.lock = TrackedLock()
         install(self.vl, self.lock)
+        # every history starts from the state of a fresh process: empty lazy Unicode-subset cache
+        from elementpath.regex import unicode_subsets as US
+        for k, v in vars(US).items():
+            if k.endswith('__subsets_cache'):
+                v.clear()
         self.initial = initial
         self.default_parser = fresh_parser('3.1')       # created under the initial locale, as a long-lived parser would be
         self.snap = snapshot()
